@@ -156,6 +156,7 @@ func generate() {
 	funcEvents("evNodeInfoUnmarshalBinary", "krpc/nodeinfo.go", "NodeInfo", "UnmarshalBinary")
 	funcEvents("evLimiterWait", "ratelimit_serial.go", "", "limiterWait")
 	defStrList("limiterCancelSites", callSitesWithArgs("CancelAt", []int{0}), "enclosing function | instant argument of every CancelAt call (abandoned limiter reservation), whole module, non-test files")
+	defStrList("limiterGiveBackCounts", incSites("sendLimiterGiveBacks"), "functions that increment sendLimiterGiveBacks (the count a reservation compares before it is cancelled)")
 	defStrList("limiterReserveSites", callSitesWithArgs("ReserveN", []int{0}), "enclosing function | instant argument of every ReserveN call, whole module, non-test files")
 
 	// every call of socket.WriteTo / WriteTo( outside tests: function it sits in
@@ -620,4 +621,32 @@ func funcDExp(name, rel, recv, fn string) {
 	}
 	fmt.Fprintf(&out, "/-- decision expression of `%s` in %s -/\ndef %s : DExp := %s\n\n", fn, rel, name, e)
 	defStrList(name+"Lets", dexpLets, "simple statements of `"+fn+"` skipped while reading it as a decision expression")
+}
+
+
+// Functions (file:recv.name) containing `<name>++`, non-test files of the root package.
+func incSites(name string) (sites []string) {
+	for _, rel := range allNonTestFiles() {
+		f := parse(rel)
+		if f == nil {
+			continue
+		}
+		for _, d := range f.Decls {
+			fd, ok := d.(*ast.FuncDecl)
+			if !ok || fd.Body == nil {
+				continue
+			}
+			found := false
+			ast.Inspect(fd.Body, func(n ast.Node) bool {
+				if x, ok := n.(*ast.IncDecStmt); ok && x.Tok == token.INC && types.ExprString(x.X) == name {
+					found = true
+				}
+				return true
+			})
+			if found {
+				sites = append(sites, enclosing(rel, fd))
+			}
+		}
+	}
+	return
 }
